@@ -8,6 +8,7 @@ import (
 	"go/token"
 	"go/types"
 	"os"
+	"sort"
 	"strings"
 
 	"golang.org/x/tools/go/ssa"
@@ -735,4 +736,74 @@ func ruleC19R8(c *Ctx) {
 		}
 	}
 	c.floor("C19.R8", "functions flushing members of a key-set pair", nFlushers, 1)
+}
+
+// C09.R5: the record carries exactly the facility and the mapped level of its PRI (RFC 5424 6.2.1: PRI = facility * 8 +
+// severity). The value stored through fieldFacilityLocator is FacilityNames[p >> 3], the value stored through
+// fieldLevelLocator is levelMapping[p & 7] (not p / 8 and p % 8: for a negative PRI text "-5" these give facility 0 and
+// index -5, where the shift gives -1 and is rejected), and p is in both cases the strconv.Atoi result of this record's PRI
+// text — not a cached, defaulted or otherwise derived number. The two protocol constants are the rule; where the number
+// comes from is provenance.
+func init() {
+	register("C09", "C09.R5", ruleC09R5)
+}
+
+func ruleC09R5(c *Ctx) {
+	fn := c.P.Fn(aParse)
+	type want struct {
+		locField, table, what string
+		ops                   map[token.Token]int64
+	}
+	wants := []want{
+		{"input/syslogparser.syslogParser.fieldFacilityLocator", "FacilityNames", "facility", map[token.Token]int64{token.SHR: 3}},
+		{"input/syslogparser.syslogParser.fieldLevelLocator", "levelMapping", "level", map[token.Token]int64{token.AND: 7}},
+	}
+	var atois []ssa.Value
+	for _, w := range wants {
+		n := 0
+		for _, s := range c.callsTo(fn, anchorPred(aLocSet)) {
+			if fieldOf(s.Common().Args[0]) != w.locField {
+				continue
+			}
+			n++
+			val := strip(s.Common().Args[2])
+			ok, why := false, "the stored value is not an element of "+w.table
+			if u, isU := val.(*ssa.UnOp); isU && u.Op == token.MUL {
+				if ia, isIA := strip(u.X).(*ssa.IndexAddr); isIA && strings.Contains(canonOf(ia.X), w.table) {
+					why = "the index is not the " + w.what + " part of the parsed PRI: " + canonOf(ia.Index)
+					if bo, isB := strip(ia.Index).(*ssa.BinOp); isB {
+						if k, isK := constInt(bo.Y); isK && w.ops[bo.Op] == k && k != 0 {
+							if ex, isE := strip(bo.X).(*ssa.Extract); isE && ex.Index == 0 {
+								if cl, isC := ex.Tuple.(*ssa.Call); isC && cl.Common().StaticCallee() != nil && extName(cl.Common().StaticCallee()) == "strconv.Atoi" {
+									ok = true
+									atois = append(atois, cl)
+								} else {
+									why = "the number decomposed is not the strconv.Atoi result of the PRI text"
+								}
+							} else {
+								why = "the number decomposed is not the strconv.Atoi result of the PRI text (" + canonOf(bo.X) + "): a cached or merged value can belong to another record"
+							}
+						}
+					}
+				}
+			}
+			c.check(ok, "C09.R5", fn, "the "+w.what+" stored is that of this record's PRI", s.Pos(),
+				w.table+"[Atoi(pri) "+opsStr(w.ops)+"]", why)
+		}
+		if n == 0 {
+			c.bad("C09.R5", fn, "the "+w.what+" stored is that of this record's PRI", fn.Pos(), "no store through "+w.locField+" found in Parse")
+		}
+	}
+	if len(atois) == 2 {
+		c.check(atois[0] == atois[1], "C09.R5", fn, "facility and level come from one parsed number", fn.Pos(), "the same strconv.Atoi call feeds both", "facility and level are decomposed from two different numbers")
+	}
+}
+
+func opsStr(m map[token.Token]int64) string {
+	var l []string
+	for op, k := range m {
+		l = append(l, fmt.Sprintf("%s %d", op, k))
+	}
+	sort.Strings(l)
+	return strings.Join(l, " or ")
 }
